@@ -135,7 +135,9 @@ def run_groups(groups, repo, scratch, pid):
                                         % (h, r["cover_fail"]))
             out["harnesses"].append(dict(name=h, status=st, checks=r["checks"], failed=r["failed"],
                                          failed_checks=fcs, time_s=r["time_s"], bounded=hb, functions=fns,
-                                         finder=g.get("finder")))
+                                         finder=g.get("finder"),
+                                         group=dict(package=g["package"], features=g.get("features"),
+                                                    flags=g.get("flags", []))))
         for s in g.get("assumptions", []):
             out["assumptions"].append("[kani:%s] %s" % (g.get("name", g["package"]), s))
     return out
